@@ -342,6 +342,9 @@ def mon_hist(r, pid):
                     a2 = [x for x in pj["a2"] if (x[0], x[1]) == (q["dst"], q["seq"])]
                     if fail and (not a2 or a2[0][2] != [1]):
                         return "step %d: failing v2 receive did not write exactly the sentinel acknowledgement: %s" % (i, a2)
+                    if not fail and len(behs) > 1 and any(bh[2] == "async" for bh in behs):
+                        return "step %d: v2 receive of a packet with %d payloads was accepted although a payload acknowledges asynchronously (%s)" % (
+                            i, len(behs), [bh[2] for bh in behs])
                     if not fail and not any(bh[2] == "async" for bh in behs):
                         want_acks = [bh[3] for bh in behs]
                         if not a2 or a2[0][2] != want_acks:
